@@ -27,6 +27,47 @@ type c19Case struct {
 	Track   [][]ref.F `json:"track,omitempty"` // lon lat alt unix per fix
 }
 
+// JSON form of a case: lines that are not valid UTF-8 are stored as bytes (see splitText).
+type c19Wire c19Case
+
+func (cs c19Case) MarshalJSON() ([]byte, error) {
+	w := struct {
+		c19Wire
+		LineBytes [][]byte `json:"line_bytes,omitempty"`
+	}{c19Wire: c19Wire(cs)}
+	raw := false
+	for _, l := range cs.Lines {
+		if _, b := splitText(l); b != nil {
+			raw = true
+		}
+	}
+	if raw {
+		w.Lines = nil
+		for _, l := range cs.Lines {
+			w.LineBytes = append(w.LineBytes, []byte(l))
+		}
+	}
+	return json.Marshal(w)
+}
+
+func (cs *c19Case) UnmarshalJSON(b []byte) error {
+	var w struct {
+		c19Wire
+		LineBytes [][]byte `json:"line_bytes"`
+	}
+	if err := json.Unmarshal(b, &w); err != nil {
+		return err
+	}
+	*cs = c19Case(w.c19Wire)
+	if w.LineBytes != nil {
+		cs.Lines = nil
+		for _, l := range w.LineBytes {
+			cs.Lines = append(cs.Lines, string(l))
+		}
+	}
+	return nil
+}
+
 func init() {
 	engine.Register(&engine.Check{
 		ID: "C19", Level: "model_checking",
